@@ -8,7 +8,9 @@
 EXTENDS Naturals, Sequences, FiniteSets, TLC
 CONSTANTS MaxSegs, SegAlphabet, RuleLists, Certs,
           DevMatchRawPath,          \* deviation: rule prefix compared with the raw URL path (str.startswith)
-          DevEmptyListMeansNoList   \* deviation: configuration layer turns allowed_fingerprints = [] into "no list"
+          DevEmptyListMeansNoList,  \* deviation: configuration layer turns allowed_fingerprints = [] into "no list"
+          DevClimbAndReturn         \* deviation (tree before its fix): "/../caproot/app/x" - above the document root and back in
+                                    \* through its own name - is served, while the rules see "/caproot/app/x"
 \* "app-x" and "apple.gmi" share a name stem with "app": a rule for /app/ covers neither
 DirPaths == { <<>>, <<"app">>, <<"app", "public">>, <<"admin">>, <<"app-x">> }
 FileNames == [ d \in DirPaths |-> CASE d = <<>> -> {"index.gmi", "pub.gmi", "apple.gmi"} [] d = <<"app">> -> {"index.gmi", "secret.gmi"}
@@ -35,8 +37,13 @@ RECURSIVE Norm(_, _)
 Norm(segs, acc) == IF segs = <<>> THEN acc
    ELSE LET h == Head(segs) IN
         IF h = "" \/ h = "." THEN Norm(Tail(segs), acc)
-        ELSE IF h = ".." THEN (IF acc = <<>> THEN <<"-above-root-">>       \* resolve() leaves the document root: 51
+        ELSE IF h = ".." THEN (IF acc = <<>> THEN
+                                   \* the path climbs above the document root: the handler refuses it (51) - even if it comes
+                                   \* back in through the root's own name ("caproot"), which is what DevClimbAndReturn does not
+                                   (IF DevClimbAndReturn THEN Norm(Tail(segs), <<"-up1-">>) ELSE <<"-above-root-">>)
+                               ELSE IF acc = <<"-up1-">> THEN <<"-above-root-">>
                                ELSE Norm(Tail(segs), SubSeq(acc, 1, Len(acc) - 1)))
+        ELSE IF acc = <<"-up1-">> THEN (IF h = "caproot" THEN Norm(Tail(segs), <<>>) ELSE <<"-above-root-">>)
         ELSE Norm(Tail(segs), Append(acc, h))
 Served ==    \* location (sequence of segments) of the file whose content is delivered, or <<"-none-">>
   LET n == Norm(Flat(path), <<>>) IN
